@@ -25,9 +25,9 @@ CHECKS = {
     "C04": dict(
         engine="comp",
         category="exploration",
-        technique="property testing of frame handlers with hostile field values in an isolated child process under a per-call allocation limit and CPU watchdog (cost oracle) plus an RFC 9000 verdict table; exhaustive boundary grids",
-        text="A short legitimate history (packets sent / received / acked) is followed by one hostile but well-formed frame or packet number whose fields are drawn boundary-biased from [0, 2^62): ACK (0-64 ranges), NEW_CONNECTION_ID, RETIRE_CONNECTION_ID, MAX_*, STREAM, RESET_STREAM, STOP_SENDING, STREAMS_BLOCKED, CRYPTO and truncated packet numbers of every width. The frame is encoded, parsed by the real FrameReader and run through the real handlers in the connection's dispatch order inside a child process with an allocation limit of 64 KiB + 64 x (frame bytes + records held) and a 1 s CPU watchdog per call: a refused allocation or runaway call is the observation 'unbounded'. Verdicts are compared with the RFC table (unsent ACK -> PROTOCOL_VIOLATION, negative range -> FRAME_ENCODING, beyond limits -> FLOW_CONTROL / STREAM_LIMIT / STREAM_STATE / FINAL_SIZE / CONNECTION_ID_LIMIT) and accepted frames with the model state. 5.4k grid cases exhaustively + 12k (2.2M thorough) random.",
-        note="The dispatcher order and flow-control glue of qconnection/src/space*.rs are line-for-line copies inside the harness (qconnection is not linked): a repair there must be mirrored. Cost constants are empirical envelopes (>=16x above clean-tree maxima for in-domain inputs): growth with the attacker's number is detected, small constant regressions are not.",
+        technique="property testing of frame handlers with hostile field values in an isolated child process under a per-call allocation limit and CPU watchdog (cost oracle) plus an RFC 9000 verdict table; exhaustive boundary grids; plus forged Initial packets (keys derived from the connection IDs seen on the wire) carrying generated hostile frames and packet numbers, injected into live client/server connections over simnet so that the real Initial-space dispatcher runs",
+        text="A short legitimate history (packets sent / received / acked) is followed by one hostile but well-formed frame or packet number whose fields are drawn boundary-biased from [0, 2^62): ACK (0-64 ranges), NEW_CONNECTION_ID, RETIRE_CONNECTION_ID, MAX_*, STREAM, RESET_STREAM, STOP_SENDING, STREAMS_BLOCKED, CRYPTO and truncated packet numbers of every width. The frame is encoded, parsed by the real FrameReader and run through the real handlers in the connection's dispatch order inside a child process with an allocation limit of 64 KiB + 64 x (frame bytes + records held) and a 1 s CPU watchdog per call: a refused allocation or runaway call is the observation 'unbounded'. Verdicts are compared with the RFC table (unsent ACK -> PROTOCOL_VIOLATION, negative range -> FRAME_ENCODING, beyond limits -> FLOW_CONTROL / STREAM_LIMIT / STREAM_STATE / FINAL_SIZE / CONNECTION_ID_LIMIT) and accepted frames with the model state. 5.4k grid cases exhaustively + 12k (2.2M thorough) random. Connection-level stage forged-initial (binary c04e, evidence merged): 2.4k (100k thorough) simnet connections with a stream-echo workload into which 0-4 forged Initial packets are delivered towards either endpoint at generated handshake moments (fresh / duplicate / far-ahead packet numbers of every width; ACK valid / unsent / negative / 2^62-wide, CRYPTO near / far / beyond 2^62-1, CONNECTION_CLOSE, PING, and all 22 frame types forbidden in Initial packets); each case runs in a child process with a counting allocator and a 20 s user-CPU budget: no panic, bounded CPU and allocation, duplicates of acknowledged packet numbers change nothing, frames the property names (ACK of unsent / negative numbers ...) end the connection when the packet certainly reached the dispatcher, a terminated endpoint shows an error kind some forged frame accounts for, and application data stays intact.",
+        note="In the component stages the dispatcher order and flow-control glue of qconnection/src/space*.rs are line-for-line copies inside the harness: a repair there must be mirrored; the forged-initial stage runs the real Initial-space dispatcher only (Handshake and 1-RTT keys cannot be forged). A forged Initial is indistinguishable from a genuine one, so disruption it legitimately causes (closed connection, stalled handshake) is classified, not flagged; packets after the RFC 9001 key-discard point are judged like any other (the property does not cover key discard). Cost constants are empirical envelopes (>=16x above clean-tree maxima for in-domain inputs): growth with the attacker's number is detected, small constant regressions are not.",
         design_ref="DESIGN.md §3 C04",
     ),
     "C01": dict(
